@@ -296,12 +296,57 @@ fn run_suite<S: ShortGroupSignatureScheme + 'static>(em: &mut Emitter, base: &mu
     }
 }
 
+/// Several signature statements: every one of them needs its own issuer's signature. The adversary holds genuine
+/// credentials for all statements but one and, for that one, a credential it signed itself (own key pair, same credential
+/// schema) — `Presentation::create` does not look at signatures, so everything except the check against the named
+/// issuer's key is consistent.
+fn unbacked_statement<S: ShortGroupSignatureScheme + 'static>(em: &mut Emitter, base: &mut Rng, suite: &str) {
+    let off = if suite == "bbs" { 0 } else { 1 };
+    for k in 0..em.n(3, 18) {
+        if !em.mine(2 * k + off) {
+            continue;
+        }
+        let rng = &mut base.sub(7000 + (2 * k + off) as u64);
+        let n_creds = 2 + k % 2;
+        let n_claims = 3 + rng.below(3) as usize;
+        let mut mix = Mix { n_creds, n_claims, age: rng.range(0, 90), disclosed: vec![vec!["name".to_string()]; n_creds], shuffle: k % 3 == 2, ..Default::default() };
+        if k % 3 == 1 {
+            mix.revocation = true;
+        }
+        let target = Scn::<S>::build(rng, &mix);
+        let adv = Scn::<S>::build(rng, &mix);
+        // honest control: the genuine holder is accepted
+        em.oracle_case(&format!("{} multi-statement control {}", suite, mix.describe()));
+        match target.create() {
+            Out::Ok(p) if target.verify(&p).is_ok() => {}
+            _ => {
+                em.count("multi-statement:control-failed");
+                continue;
+            }
+        }
+        for j in 0..n_creds {
+            let mut creds = target.credentials.clone();
+            creds.insert(target.sig_ids[j].clone(), adv.bundles[j].credential.clone().into());
+            // keep the statement order of the credentials map as in the target
+            let creds: indexmap::IndexMap<String, credx::presentation::PresentationCredential<S>> = target.credentials.keys().map(|k| (k.clone(), creds[k].clone())).collect();
+            let world = Scn::<S> { mix: target.mix.clone(), issuers: vec![], publics: target.publics.clone(), bundles: vec![], sig_ids: target.sig_ids.clone(), schema: target.schema.clone(), credentials: creds, nonce: target.nonce.clone(), stmt_ids: target.stmt_ids.clone() };
+            match world.create() {
+                Out::Ok(p) => attack(em, suite, &format!("self-signed-credential-for-statement {} of {}", j, n_creds), &world, &p),
+                _ => em.count("multi-statement:create-refused"),
+            }
+        }
+    }
+}
+
 pub fn gen_c01(em: &mut Emitter, rng: &mut Rng) {
     em.rule = "adversary without any signature of the statement's issuer (owns a credential of another issuer with the same schema, observes \
                legitimate presentations): honest prover code on the foreign credential, proof valid for the other issuer transplanted with the verifier's \
                challenge (steered prover), zero / one / random / verifier-computed challenge, omitted proof, each of the 7 other proof variants \
                under the signature statement's id, observed proof with own claims, response vectors of every length 0..hidden+4, over-long vectors \
-               with forged commitments (BBS: harvested (P,xP) pair; PS: σ₂ = kσ₁ with no signature at all), identity elements. oracle: any Ok".into();
+               with forged commitments (BBS: harvested (P,xP) pair; PS: σ₂ = kσ₁ with no signature at all), identity elements (one and both points); holder of a genuine credential reporting an unsigned / zero-encoded value; \
+               2-3 signature statements with a self-signed credential under each one in turn. oracle: any Ok".into();
     run_suite::<Bbs>(em, rng, "bbs");
     run_suite::<Ps>(em, rng, "ps");
+    unbacked_statement::<Bbs>(em, rng, "bbs");
+    unbacked_statement::<Ps>(em, rng, "ps");
 }
